@@ -97,9 +97,7 @@ theorem step_frame (s : HState α) (gop : Growth × Op α) (inv : Inv s) :
   | skip n i =>
     by_cases hn : n < 0
     · simp only [step, Skip_neg g s.heap n _ hn]
-      split
-      · exact push_frame inv _ [] ⟨.nil, s.heap, rfl, Ext.refl _, trivial, rfl⟩
-      · exact push_error inv _
+      exact push_error inv _
     · exact push_frame inv _ _ (Skip_post g s.heap n _ (inv.get i) (by omega))
   | map f i => exact push_frame inv _ _ (Map_post g f s.heap _ (inv.get i))
   | mapi f i => exact push_frame inv _ _ (Mapi_post g f s.heap _ (inv.get i))
